@@ -43,6 +43,19 @@ def run(repo: Repo, tier: str, res: CheckResult, seed: int = 0) -> None:
                             consequence="a retort derived with replace(debug_trail=...) keeps raising in the mode of the original (trails under DISABLE, a single untrailed error under ALL)")
     from .. import genprog
     genprog.c05_checks(repo, tier, res, seed)
+    # an exception that is not a LoadError and escapes from a generated loader carries no trail, and under ALL it discards
+    # every error collected so far -- none of the invalid leaves is reported (escape analysis of C04 over the same programs)
+    from ..esc import Esc
+    from ..values import Resolver as _Resolver
+    _sub = CheckResult("C04")
+    genprog.c04_checks(repo, tier, _sub, Esc(repo, _Resolver(repo), role="loader"), seed)
+    res.evaluated("generated:escapes-lose-collected-errors", True)
+    for _f in _sub.findings:
+        if _f.rule == "ESC.generated-escape":
+            res.add(Finding("C05", "ALL.generated-escape-loses-errors", _f.file, _f.qualname, _f.construct,
+                            "a raw exception leaves the generated loader: it has no struct trail, and in DebugTrail.ALL the errors "
+                            "collected before it are dropped, so the invalid leaves of the datum are not reported (a wrong-typed "
+                            "nested mapping is met by code that runs after its type error was recorded). " + _f.message[:200], _f.line))
     res.assumptions = list(ASSUMPTIONS)
 
 
